@@ -258,9 +258,7 @@ def run(ck: core.Check):
                 small = shrink(prog, req, key, lambda p, r: oracle_inproc(p, r, env, with_values=key.endswith("value"), feed_seed=k)[0])
                 ck.failure(key, what, {"prog": prog, "req": small, "mode": "inproc", "feed_seed": k,
                                        "before": list(done_here),
-                                       "prelude": [{"prog": p_, "reqs": [r_]} for p_, r_ in recent[-2:] if p_ is not prog]})
-            recent.append((prog, req))
-            del recent[:-2]
+                                       "prelude": [{"prog": p_, "reqs": rs_} for p_, rs_ in recent[-2:]]})
             done_here.append(req)
             # correspondence
             if m is not None:
@@ -284,6 +282,8 @@ def run(ck: core.Check):
                         real = lf.observed(got[1]) if got[0] == "ok" else got[1]
                         ck.broken("correspondence", "C03 front-end model vs spox.build",
                                   f"req={req} objs={lf.to_objs(prog)} model={m} real={real} names={names_after}")
+        recent.append((prog, list(done_here)))
+        del recent[:-2]
 
     # ---- fresh processes, several hash seeds: same judgement, plus run-to-run stability
     hashseeds = list(range(ck.pick(6, 32)))
